@@ -79,11 +79,86 @@ READ_CONTEXTS = [
 ]
 
 
+def run_bare(argv, cwd, env):
+    """the real binary with EXACTLY the given environment (run_cli always adds PATH and HOME)"""
+    import subprocess
+    try:
+        p = subprocess.run([core.UCG] + argv, cwd=cwd, env=env, stdout=subprocess.PIPE, stderr=subprocess.PIPE, timeout=30.0)
+    except subprocess.TimeoutExpired:
+        return {"exit": None, "signal": None, "hang": True, "stdout": "", "stderr": ""}
+    return {"exit": p.returncode if p.returncode >= 0 else None, "signal": -p.returncode if p.returncode < 0 else None,
+            "stdout": p.stdout.decode("utf-8", "replace"), "stderr": p.stderr.decode("utf-8", "replace")}
+
+
+def judge_tiny_env(r, res, fixed=None):
+    """environments of 0, 1 and 2 variables, nothing else (not even HOME or PATH): `env` is the tuple of exactly those"""
+    if fixed is not None:
+        env, cn = fixed
+        n = len(env)
+        ctx_name, ctx = [c for c in READ_CONTEXTS if c[0] == cn][0] if cn else READ_CONTEXTS[0]
+    else:
+        n = r.choice([0, 0, 1, 2])
+        env = {}
+        for i in range(n):
+            env[r.choice(["A", "ONLY", "X_1", "lower", "Z9"]) + str(i)] = r.choice(["", "v", "two words", "\u00e9"])
+        ctx_name, ctx = r.choice(READ_CONTEXTS)
+    with core.TempProject("c18e") as tp:
+        witness = {"env": env, "exact_environment": True}
+        res.case((json.dumps(env, sort_keys=True), "tiny-env", ctx_name), nontrivial=True)
+        res.count("tiny-environment:%d-variables" % n)
+        # the whole environment as a value
+        tp.write("w.ucg", "out json env;\n")
+        ev = run_bare(["build", "w.ucg"], tp.root, env)
+        doc = None
+        if ev["exit"] == 0 and os.path.exists(tp.path("w.json")):
+            try:
+                doc = json.loads(open(tp.path("w.json"), "rb").read().decode("utf-8"))
+            except ValueError:
+                doc = "unreadable"
+        if ev.get("hang") or ev["signal"] or ev["exit"] not in (0, 1):
+            res.count("crash-left-to-C04")
+            return
+        if doc != env:
+            res.violation(["whole-env-differs", "%d-variables" % n], dict(witness, text="out json env;\n"),
+                          {"exit": ev["exit"], "artifact": doc, "output": (ev["stdout"] + ev["stderr"])[-300:]})
+            return
+        # an unset name, strict and not
+        missing = "C18_UNSET"
+        text = ctx % {"x": "env." + missing} + "out json {v = v};\n"
+        tp.write("u.ucg", text)
+        w2 = dict(witness, text=text, missing=missing, context=ctx_name)
+        ev = run_bare(["build", "u.ucg"], tp.root, env)
+        if ev["exit"] == 0:
+            res.violation(["unset-variable-builds-in-strict-mode", ctx_name, "tiny-environment"], w2, {})
+            return
+        if ev["exit"] == 1 and missing not in ev["stdout"] + ev["stderr"]:
+            res.violation(["diagnostic-does-not-name-the-variable", "tiny-environment"], w2, {"output": (ev["stdout"] + ev["stderr"])[-300:]})
+            return
+        ev = run_bare(["--no-strict", "build", "u.ucg"], tp.root, env)
+        if ev["exit"] != 0:
+            res.violation(["unset-variable-fails-in-non-strict-mode", ctx_name, "tiny-environment"], w2, {"output": (ev["stdout"] + ev["stderr"])[-300:]})
+            return
+        # every set name reads back
+        if env:
+            text = "out json {%s};\n" % ", ".join("k%d = env.%s" % (i, k) for i, k in enumerate(env))
+            tp.write("s.ucg", text)
+            ev = run_bare(["build", "s.ucg"], tp.root, env)
+            got = None
+            if ev["exit"] == 0:
+                got = json.loads(open(tp.path("s.json"), "rb").read().decode("utf-8"))
+            if got != {"k%d" % i: v for i, (k, v) in enumerate(env.items())}:
+                res.violation(["env-value-differs", "tiny-environment"], dict(witness, text=text), {"artifact": got, "output": (ev["stdout"] + ev["stderr"])[-300:]})
+                return
+        res.count("tiny-environment-ok")
+
+
 def task(args):
     seed, idx, count = args
     r = core.rng_for(seed, "c18", idx)
     res = core.Result()
     for c in range(count):
+        if c % 4 == 0:
+            judge_tiny_env(r, res)
         env = gen_env(r)
         secrets = {}
         for i in range(r.randint(1, 3)):
@@ -256,6 +331,9 @@ def run(tier, seed, t0):
 def check_witness(w):
     res = core.Result()
     env = dict(w["env"])
+    if w.get("exact_environment"):
+        judge_tiny_env(None, res, fixed=(env, w.get("context")))
+        return res
     with core.TempProject("c18r") as tp:
         os.makedirs(tp.path("home"), exist_ok=True)
         by = w.get("bystander_hex")
